@@ -56,6 +56,8 @@ def make_cases(spec):
             opts.append(("reset_at", " ".join(map(str, pts))))
         cases.append({"mode": "run", "main": "main", "files": {"main": text}, "opts": opts})
     if spec["chunk"] < 3:
+        for files, main, kind in programs.no_variable_sources(r):     # a root frame of zero words
+            cases.append({"mode": "run", "main": main, "files": files, "opts": [("budget", 500), ("program", 0), ("via_execute", 0), ("reset_at", "1 3")]})
         # deep call chains (130-300 activations alive at once), routines with hundreds of registers / parameters / definitions
         for files, main, kind in programs.scale_sources(r, small=spec["chunk"] == 0, large=spec["chunk"] == 1):
             if any(w in kind for w in ("call-chain", "definitions", "parameters", "locals", "macro-call")):
